@@ -200,15 +200,23 @@ example : Stage2 (.seq none [exPt, .rep none exPt (.var "n") [] []] [] []) :=
     intro p hp
     simp only [List.mem_cons, List.not_mem_nil, or_false] at hp
     rcases hp with rfl | rfl
-    · exact Stage2.atom AtomTree.const
-    · exact Stage2.rep (Stage2.atom AtomTree.const))
+    · exact Stage2.atom (AtomTreeP.base AtomTree.const)
+    · exact Stage2.rep (Stage2.atom (AtomTreeP.base AtomTree.const)))
 
 example : ∃ prog P, createProgram exPt [] none [] [] = .ok (some prog) ∧ denoteTop exPt [] none [] = .ok P ∧
     prog.allPos := ⟨exProg, _, exPt_program, exPt_denote, exProg_allPos⟩
 
+/-- `ArithmeticAtomicPT` (here `exPt - exPt` under a sequence) is in the scope of `compile_correct_partial` -/
+example : Stage3 (.seq none [.arithAtomic none exPt true exPt []] [] []) :=
+  Stage3.seq (by
+    intro p hp
+    simp only [List.mem_singleton] at hp
+    subst hp
+    exact Stage3.atom (AtomTreeP.arithAtomic (AtomTreeP.base AtomTree.const) (AtomTreeP.base AtomTree.const)))
+
 /-- a parallel-channel template below an arithmetic one, outside PF-11: in the scope of `compile_correct_partial` -/
 example : Stage3 pf11SafePt ∧ inPF11 pf11SafePt (topCm pf11SafePt []) = false :=
-  ⟨Stage3.arith (Stage3.parallel (Stage3.atom AtomTree.func)) (by
+  ⟨Stage3.arith (Stage3.parallel (Stage3.atom (AtomTreeP.base AtomTree.func))) (by
     intro x hx
     simp only [List.mem_singleton] at hx
     subst hx
@@ -217,7 +225,7 @@ example : Stage3 pf11SafePt ∧ inPF11 pf11SafePt (topCm pf11SafePt []) = false 
 /-- the PF-11 witness is a stage-3 template; the only hypothesis of `compile_correct_partial` it violates is the
 class predicate -/
 example : Stage3 pf11Pt ∧ inPF11 pf11Pt (topCm pf11Pt []) = true :=
-  ⟨Stage3.arith (Stage3.parallel (Stage3.atom AtomTree.func)) trivial, by decide⟩
+  ⟨Stage3.arith (Stage3.parallel (Stage3.atom (AtomTreeP.base AtomTree.func))) trivial, by decide⟩
 
 /-! ## PF-11 (open finding): `ParallelChannelPulseTemplate` chains `(global, parallel)`
 
